@@ -156,6 +156,9 @@ func checkC06(c *core.Ctx) {
 	if err != nil {
 		panic(err)
 	}
+	if b, err := os.ReadFile(sc.PkgAllFoi()); err == nil {
+		fo.FoiText = string(b)
+	}
 	c.Set("rule", "programs x layouts: programs are all terms with 1 construct over the full alphabet, all terms with 2 constructs over the block-owning constructs and the boundary corpus (the C01 generator); for each abstract program the printer's layout decisions are the choice points of the explorer (block indentation +2/+1/+4/+7, arm column +0/+1/+2, 0-2 blank lines and 5 kinds of own-line comments before every statement / arm / definition, 5 kinds of line ends, if on one line or several, let right-hand side / arm body / lambda body / function body on the same or the next line, break before each |> at 3 columns, 3 ends of file) and every layout with at most d non-default answers is transpiled (one fc process each); distinct = distinct (program, layout); non-trivial = at least one non-default layout answer")
 	c.Assumption("deliberately not in the layout grammar (the statement does not list them): omitting the final newline of the file, breaking a line after a binary operator, a token following a multi-line comment on the comment's last line; indentation uses spaces")
 	if c.ReplayFile != "" {
